@@ -1,6 +1,265 @@
-//! C07 — implementation side of the correspondence (stub).
+//! C07 — message transport obeys the selected network semantics in every interleaving.
+//! (i) the `Network` object alone: `send`/`on_deliver`/`on_drop` are crate-private, so they are driven through
+//!     `ActorModel::next_state` with scripted `TableActor`s (a `Timeout(src, code(dst,msg))` action makes `src`
+//!     send one envelope; a `Deliver` goes to a handler that leaves the state `Owned`, so it is never a no-op;
+//!     `Drop` is passed directly). After every op the network is read through `len`, `iter_all` (guarded by
+//!     `take(len + 2)`), `iter_deliverable` and its representation.
+//! (ii) all maximal action sequences (depth-bounded) of small send-only systems, the six kind x loss combinations.
 use srh::out::*;
+use srh::rng::Rng;
+use srh::table_actor::*;
+use stateright::actor::{ActorModel, ActorModelAction, ActorModelState, Network};
+use stateright::Model;
+use std::collections::BTreeMap;
+use std::panic::{catch_unwind, AssertUnwindSafe};
+use std::sync::Arc;
+
+type A = TableActor<TMsg>;
+type Act = ActorModelAction<TMsg, TTimer, TRandom>;
+type St = ActorModelState<A, Hist>;
+
+const MSGS: u8 = 3;
+
+fn timer_code(dst: usize, msg: u8) -> u8 { (dst as u8) * 4 + msg }
+
+/// actor that sends (dst,msg) on Timeout(code(dst,msg)) and accepts every message with an `Owned` state
+fn scripted_table(n: usize) -> Table {
+    let mut t = Table::default();
+    for dst in 0..=n {
+        for m in 0..MSGS {
+            t.timeout.insert((0, timer_code(dst, m)), Row { ns: None, cmds: vec![TCmd::Send(dst, m)] });
+        }
+    }
+    for src in 0..=n {
+        for m in 0..MSGS {
+            t.msg.insert((0, src, m), Row { ns: Some(0), cmds: vec![] });
+        }
+    }
+    t
+}
+
+fn observe(net: &Network<TMsg>) -> String {
+    let len = net.len();
+    let ordered = matches!(net, Network::Ordered(_));
+    let mut all: Vec<(usize, usize, u64)> = net.iter_all().take(len + 2).map(|e| (usize::from(e.src), usize::from(e.dst), e.msg.code())).collect();
+    let mut del: Vec<(usize, usize, u64)> = net.iter_deliverable().map(|e| (usize::from(e.src), usize::from(e.dst), e.msg.code())).collect();
+    if !ordered { all.sort(); del.sort(); }
+    let p = |v: &Vec<(usize, usize, u64)>| format!("({})", v.iter().map(|(s, d, m)| format!("({} {} {})", s, d, m)).collect::<Vec<_>>().join(" "));
+    format!("{} {} {} {}", net_sx(net), len, p(&all), p(&del))
+}
+
+#[derive(Clone, Copy, Debug, PartialEq)]
+enum Op { Send(usize, usize, u8), Deliver(usize, usize, u8), Drop(usize, usize, u8) }
+impl Op {
+    fn sx(&self) -> String {
+        match self {
+            Op::Send(s, d, m) => format!("(s {} {} {})", s, d, m),
+            Op::Deliver(s, d, m) => format!("(d {} {} {})", s, d, m),
+            Op::Drop(s, d, m) => format!("(x {} {} {})", s, d, m),
+        }
+    }
+    fn action(&self) -> Act {
+        match *self {
+            Op::Send(s, d, m) => mk_action(&[2, s as u64, timer_code(d, m) as u64]),
+            Op::Deliver(s, d, m) => mk_action(&[0, s as u64, d as u64, m as u64]),
+            Op::Drop(s, d, m) => mk_action(&[1, s as u64, d as u64, m as u64]),
+        }
+    }
+}
+
+fn init_spec(r: &mut Rng, kind: NetKind, n: usize) -> SysSpec {
+    let n_env = match r.below(3) { 0 => 0, 1 => r.range(1, 2), _ => r.range(3, 5) };
+    // few distinct envelopes so that identical copies are common
+    let init_envs: Vec<(usize, usize, u8)> = (0..n_env).map(|_| { let w = if r.chance(1, 2) { 1 } else { MSGS as usize }; (r.below(n), r.below(n + 1), r.below(w) as u8) }).collect();
+    let last = if kind == NetKind::Dup && r.chance(1, 3) { Some((r.below(n), r.below(n), r.below(MSGS as usize) as u8)) } else { None };
+    let tab = Arc::new(scripted_table(n));
+    SysSpec { kind, lossy: true, max_crashes: 0, hist: HistCfg { in_mode: 0, out_mode: 0 }, init_envs, last, tables: (0..n).map(|_| tab.clone()).collect() }
+}
+
+fn envs_sx(v: &[(usize, usize, u8)]) -> String {
+    format!("({})", v.iter().map(|(s, d, m)| format!("({} {} {})", s, d, m)).collect::<Vec<_>>().join(" "))
+}
+fn last_sx(l: &Option<(usize, usize, u8)>) -> String {
+    match l { None => "none".into(), Some((s, d, m)) => format!("(some ({} {} {}))", s, d, m) }
+}
+
+/// one op sequence on the network object; `wild` = also ops the model does not offer (error branches, model only)
+fn net_sequence(out: &mut Out, r: &mut Rng, kind: NetKind, max_ops: usize, wild: bool, sample: bool) {
+    let n = r.range(2, 3);
+    let spec = init_spec(r, kind, n);
+    let model: ActorModel<A, HistCfg, Hist> = spec.model(spec.table_actors::<TMsg>(None));
+    let mut st: St = model.init_states().pop().unwrap();
+    let mut ops: Vec<Op> = Vec::new();
+    let mut obs: Vec<String> = vec![observe(&st.network)];
+    let mut panicked = false;
+    let n_ops = r.range(1, max_ops);
+    // a narrow alphabet in half of the sequences: many repeats of identical envelopes, long single flows
+    let narrow = r.chance(1, 2);
+    for _ in 0..n_ops {
+        let deliverable: Vec<(usize, usize, u8)> = st.network.iter_deliverable().map(|e| (usize::from(e.src), usize::from(e.dst), e.msg.0)).collect();
+        let rand_env = |r: &mut Rng| if narrow { (0usize, r.below(2), r.below(2) as u8) } else { (r.below(n), r.below(n + 1), r.below(MSGS as usize) as u8) };
+        let op = if wild && r.chance(1, 6) {
+            let (s, d, m) = rand_env(r);
+            if r.chance(1, 2) { Op::Drop(s, d, m) } else { Op::Deliver(s, d.min(n - 1), m) }
+        } else {
+            match r.below(5) {
+                0 | 1 => { let (s, d, m) = rand_env(r); Op::Send(s, d, m) }
+                2 | 3 => {
+                    let dl: Vec<_> = deliverable.iter().filter(|e| e.1 < n).collect();
+                    if dl.is_empty() { let (s, d, m) = rand_env(r); Op::Send(s, d, m) } else { let e = **r.pick(&dl); Op::Deliver(e.0, e.1, e.2) }
+                }
+                _ => {
+                    if deliverable.is_empty() { let (s, d, m) = rand_env(r); Op::Send(s, d, m) } else { let e = *r.pick(&deliverable); Op::Drop(e.0, e.1, e.2) }
+                }
+            }
+        };
+        ops.push(op);
+        out.stat(match op { Op::Send(..) => "op-send", Op::Deliver(..) => "op-deliver", Op::Drop(..) => "op-drop" });
+        let res = catch_unwind(AssertUnwindSafe(|| model.next_state(&st, op.action())));
+        match res {
+            Err(_) => { obs.push("panic".into()); panicked = true; out.stat("op-panicked"); break; }
+            Ok(None) => {
+                // cannot happen by construction (handlers are never no-ops, recipients exist)
+                out.v("net-op-ignored", &format!("op {} returned None in {}", op.sx(), net_sx(&st.network)));
+                break;
+            }
+            Ok(Some(s2)) => { st = s2; obs.push(observe(&st.network)); }
+        }
+        let len = st.network.len();
+        if len >= 2 { out.stat("obs-len>=2"); }
+        if let Network::UnorderedNonDuplicating(ms) = &st.network { if ms.values().any(|c| *c > 1) { out.stat("obs-multiset-count>1"); } }
+        if let Network::Ordered(fl) = &st.network { if fl.values().any(|q| q.len() > 2) { out.stat("obs-flow-len>2"); } if fl.len() > 1 { out.stat("obs-several-flows"); } }
+    }
+    let groups = format!("({})", ops.iter().map(|o| format!("({})", o.sx())).collect::<Vec<_>>().join(" "));
+    let head = format!("{} {} {}", kind.sx(), envs_sx(&spec.init_envs), last_sx(&spec.last));
+    out.m(&format!("net-run {} {}", head, groups), &obs.iter().map(|o| if o == "panic" { o.clone() } else { format!("({})", o) }).collect::<Vec<_>>().join(" "));
+    out.stat(&format!("net-seq-{}{}", kind.name(), if wild { "-wild" } else { "" }));
+    if !wild && !panicked {
+        let mut steps = vec![format!("(() {} -)", obs[0])];
+        for (o, ob) in ops.iter().zip(obs.iter().skip(1)) { steps.push(format!("(({}) {} -)", o.sx(), ob)); }
+        out.o(&format!("o-net {} {} t {} {} ({})", kind.sx(), n, envs_sx(&spec.init_envs), last_sx(&spec.last), steps.join(" ")));
+    }
+    if wild && !panicked { out.stat("wild-seq-no-panic"); }
+    if ops.len() >= 2 { out.distinct(&(0u8, kind.sx(), spec.init_envs.clone(), groups.clone())); }
+    if sample { out.sample(&format!("network {} init {} ops {}", kind.name(), envs_sx(&spec.init_envs), groups)); }
+}
+
+/// sends of the handler a transition invoked
+fn sends_of(spec: &SysSpec, log: &[Invocation]) -> Vec<Op> {
+    let mut v = Vec::new();
+    for inv in log {
+        let tab = &spec.tables[inv.id];
+        let cmds: &[TCmd] = match &inv.ev {
+            Ev::Start => &tab.start.1,
+            Ev::Msg { state, src, msg } => tab.msg.get(&(*state, *src, *msg as u8)).map(|r| &r.cmds[..]).unwrap_or(&[]),
+            Ev::Timeout { state, timer } => tab.timeout.get(&(*state, *timer)).map(|r| &r.cmds[..]).unwrap_or(&[]),
+            Ev::Random { state, random } => tab.random.get(&(*state, *random)).map(|r| &r.cmds[..]).unwrap_or(&[]),
+        };
+        for c in cmds { if let TCmd::Send(d, m) = c { v.push(Op::Send(inv.id, *d, *m)); } }
+    }
+    v
+}
+
+fn acts_sx(model: &ActorModel<A, HistCfg, Hist>, st: &St) -> (Vec<(Vec<u64>, Act)>, String) {
+    let mut acts = Vec::new();
+    model.actions(st, &mut acts);
+    let mut keyed: Vec<(Vec<u64>, Act)> = acts.into_iter().map(|a| (action_key(&a), a)).collect();
+    keyed.sort_by(|a, b| a.0.cmp(&b.0));
+    let s = format!("({})", keyed.iter().map(|(_, a)| action_sx(a)).collect::<Vec<_>>().join(" "));
+    (keyed, s)
+}
+
+/// (ii) all maximal action sequences of a small send-only system
+fn scenario(out: &mut Out, r: &mut Rng, kind: NetKind, lossy: bool, depth: usize, cap: usize, sample: bool) {
+    let p = GenParams { actors: (2, 3), states: (1, 2), msgs: 2, max_cmds: 2, density: 35, use_timers: false, use_random: false,
+        ghost_dst: true, max_crashes: (0, 0), ..Default::default() };
+    let mut spec = gen_sys(r, &p);
+    spec.kind = kind; spec.lossy = lossy; spec.last = None;
+    spec.hist = HistCfg { in_mode: 0, out_mode: 0 };
+    if spec.init_envs.len() > 2 { spec.init_envs.truncate(2); }
+    let log = new_log();
+    let model = spec.model(spec.table_actors::<TMsg>(Some(&log)));
+    let sx = spec.to_sx(&[]);
+    take_log(&log);
+    let st0: St = model.init_states().pop().unwrap();
+    let init_sends = sends_of(&spec, &take_log(&log));
+
+    // depth-first enumeration of maximal sequences; each with its op groups and observations
+    struct Frame { st: St, path: Vec<String>, steps: Vec<String> }
+    let mut paths: Vec<Vec<String>> = Vec::new();
+    let mut oracle_reqs: Vec<String> = Vec::new();
+    let (_, a0) = acts_sx(&model, &st0);
+    let first = format!("(({}) {} {})", init_sends.iter().map(|o| o.sx()).collect::<Vec<_>>().join(" "), observe(&st0.network), a0);
+    fn go(model: &ActorModel<A, HistCfg, Hist>, spec: &SysSpec, log: &Log, f: Frame, depth: usize, cap: usize,
+          paths: &mut Vec<Vec<String>>, oracle: &mut Vec<String>) {
+        if paths.len() >= cap { return; }
+        let (keyed, _) = acts_sx(model, &f.st);
+        let mut nexts = Vec::new();
+        if depth > 0 {
+            for (k, a) in keyed {
+                take_log(log);
+                if let Some(s2) = model.next_state(&f.st, a.clone()) {
+                    let lg = take_log(log);
+                    nexts.push((k, a, s2, lg));
+                }
+            }
+        }
+        if nexts.is_empty() {
+            paths.push(f.path.clone());
+            oracle.push(format!("({})", f.steps.join(" ")));
+            return;
+        }
+        for (k, a, s2, lg) in nexts {
+            let mut ops: Vec<Op> = Vec::new();
+            match k[0] {
+                0 => ops.push(Op::Deliver(k[1] as usize, k[2] as usize, k[3] as u8)),
+                1 => ops.push(Op::Drop(k[1] as usize, k[2] as usize, k[3] as u8)),
+                _ => {}
+            }
+            ops.extend(sends_of(spec, &lg));
+            let (_, a2) = acts_sx(model, &s2);
+            let mut steps = f.steps.clone();
+            steps.push(format!("(({}) {} {})", ops.iter().map(|o| o.sx()).collect::<Vec<_>>().join(" "), observe(&s2.network), a2));
+            let mut path = f.path.clone();
+            path.push(action_sx(&a));
+            go(model, spec, log, Frame { st: s2, path, steps }, depth - 1, cap, paths, oracle);
+        }
+    }
+    go(&model, &spec, &log, Frame { st: st0, path: vec![], steps: vec![first] }, depth, cap, &mut paths, &mut oracle_reqs);
+    let exp = format!("({})", paths.iter().map(|p| format!("({})", p.join(" "))).collect::<Vec<_>>().join(" "));
+    out.m(&format!("traces {} {} {}", sx, depth, cap), &exp);
+    let head = format!("o-net {} {} {} {} none", kind.sx(), spec.tables.len(), if lossy { "t" } else { "f" }, envs_sx(&spec.init_envs));
+    // every 1st..: all sequences if few, else an evenly spread sample of 40
+    let stride = (oracle_reqs.len() / 40).max(1);
+    for (i, o) in oracle_reqs.iter().enumerate() { if i % stride == 0 { out.o(&format!("{} {}", head, o)); out.stat("scenario-sequences-to-oracle"); } }
+    out.stat(&format!("scenario-{}-{}", kind.name(), if lossy { "lossy" } else { "reliable" }));
+    out.stat_n("scenario-sequences", paths.len() as u64);
+    if paths.len() >= cap { out.stat("scenario-capped"); }
+    let longest = paths.iter().map(|p| p.len()).max().unwrap_or(0);
+    out.stat(&format!("scenario-longest-{}", longest));
+    if longest >= 2 { out.distinct(&(1u8, sx.clone())); }
+    if sample { out.sample(&format!("scenario {} depth {} -> {} maximal sequences", sx, depth, paths.len())); }
+    let _ = BTreeMap::<u8, u8>::new();
+}
+
 fn main() {
-    let out = Out::new();
+    quiet_panics();
+    let mut out = Out::new();
+    let mut r = Rng::new(seed());
+    let th = thorough();
+    let n_seq = arg_u64("--sequences", if th { 100_000 } else { 6_000 }) as usize;
+    let n_scen = arg_u64("--scenarios", if th { 1_200 } else { 90 }) as usize;
+    for i in 0..n_seq {
+        let kind = NetKind::all()[i % 3];
+        let wild = i % 5 == 4;
+        let mut rr = r.fork();
+        net_sequence(&mut out, &mut rr, kind, 30, wild, i < 3);
+    }
+    for i in 0..n_scen {
+        let kind = NetKind::all()[i % 3];
+        let lossy = (i / 3) % 2 == 0;
+        let mut rr = r.fork();
+        scenario(&mut out, &mut rr, kind, lossy, if th { 6 } else { 5 }, 300, i < 2);
+    }
     out.finish();
 }
